@@ -19,17 +19,19 @@ text of the implementation is *parsed* row by row here and compared field by fie
 namespace Driver.MemView
 open Driver Mltwist Mltwist.MemView
 
+structure Store where
+  addr : Nat
+  w : Nat
+  ex : Expr
+
 inductive Cmd where
   | print (n : Int)
   | addr (s : List UInt8)
   | goto (n : Nat)
   | up (n : Nat)
   | down (n : Nat)
-
-structure Store where
-  addr : Nat
-  w : Nat
-  ex : Expr
+  /-- a store into the memory WHILE the view exists (the view keeps its rows, the bytes are read live) -/
+  | st (s : Store)
 
 inductive MemSpec where
   | nil
@@ -42,6 +44,7 @@ def pStore : P Store := do
 
 def pCmd : P Cmd := do
   match (← next) with
+  | "st" => do pure (.st (← pStore))
   | "print" => do pure (.print (← pInt))
   | "addr" => do pure (.addr (← pHex))
   | "goto" => do pure (.goto (← pNat))
@@ -100,26 +103,37 @@ def build : MemSpec → Built
 def maxInt : Nat := 2 ^ 63 - 1
 
 /-- run the commands on the model; answers as canonical strings -/
-def runModel (mem : Option Mem) : View → List Cmd → List String → List String
+def addStore : MemSpec → Store → MemSpec
+  | .nil, _ => .nil
+  | .sparse sts, s => .sparse (sts ++ [s])
+  | .bytes bl sts, s => .bytes bl (sts ++ [s])
+
+def runModel (ms : MemSpec) (mem : Option Mem) : View → List Cmd → List String → List String
   | _, [], acc => acc
   | v, c :: cs, acc =>
     let step (r : Option View) : List String :=
       match r with
-      | some v' => runModel mem v' cs (acc ++ [s!"ok {v'.cursor}"])
-      | none => runModel mem v cs (acc ++ [s!"err {v.cursor}"])
+      | some v' => runModel ms mem v' cs (acc ++ [s!"ok {v'.cursor}"])
+      | none => runModel ms mem v cs (acc ++ [s!"err {v.cursor}"])
     match c with
+    | .st st =>
+      -- the memory changes under the view: rebuild it, keep the rows and the cursor
+      let ms' := addStore ms st
+      match build ms' with
+      | .mem m' => runModel ms' m' v cs (acc ++ [s!"st {v.cursor}"])
+      | _ => acc ++ ["PANIC"]
     | .print n =>
       match MemView.print mem v n.toNat with
-      | some out => runModel mem v cs (acc ++ [s!"out {v.cursor} {fmtHex out}"])
+      | some out => runModel ms mem v cs (acc ++ [s!"out {v.cursor} {fmtHex out}"])
       | none => acc ++ ["PANIC"]
     | .addr s =>
       match NumParse.parseAddr s with
       | .ok a => step (cmdAddress v a)
-      | .err => runModel mem v cs (acc ++ [s!"argerr {v.cursor}"])
+      | .err => runModel ms mem v cs (acc ++ [s!"argerr {v.cursor}"])
       | .panic => acc ++ ["PANIC"]
-    | .goto n => if n > maxInt then runModel mem v cs (acc ++ [s!"argerr {v.cursor}"]) else step (cmdGoto v n)
-    | .up n => if n > maxInt then runModel mem v cs (acc ++ [s!"argerr {v.cursor}"]) else step (cmdUp v n)
-    | .down n => if n > maxInt then runModel mem v cs (acc ++ [s!"argerr {v.cursor}"]) else step (cmdDown v n)
+    | .goto n => if n > maxInt then runModel ms mem v cs (acc ++ [s!"argerr {v.cursor}"]) else step (cmdGoto v n)
+    | .up n => if n > maxInt then runModel ms mem v cs (acc ++ [s!"argerr {v.cursor}"]) else step (cmdUp v n)
+    | .down n => if n > maxInt then runModel ms mem v cs (acc ++ [s!"argerr {v.cursor}"]) else step (cmdDown v n)
 
 def modelAnswer (ms : MemSpec) (cmds : List Cmd) : String :=
   match build ms with
@@ -129,7 +143,7 @@ def modelAnswer (ms : MemSpec) (cmds : List Cmd) : String :=
     match newMemoryView m with
     | none => "PANIC"
     | some v =>
-      let a := runModel m v cmds []
+      let a := runModel ms m v cmds []
       if a.isEmpty then "-" else " | ".intercalate a
 
 /-! ### oracle side -/
@@ -237,6 +251,12 @@ def judge (σ : Spec.MemView.ByteMap) (rows : List (Option Nat)) :
         judge σ rows cs rest { st with fails := if ans == ["argerr", toString st.cursor] then st.fails
             else st.fails ++ [s!"{what}: expected `argerr {st.cursor}`"] }
       match c with
+      | .st s =>
+        let σ' := match storedBytes s with
+          | some bs => Spec.MemView.putBytes σ s.addr bs
+          | none => σ
+        judge σ' rows cs rest { st with fails := if ans == ["st", toString st.cursor] then st.fails
+            else st.fails ++ [s!"store into the viewed memory: expected `st {st.cursor}`"], tags := st.tags ++ ["live-store"] }
       | .print n =>
         match ans with
         | ["out", cur, h] =>
